@@ -127,5 +127,17 @@ def beginMap : Bytes := [0xbf]
 def beginStr : Bytes := [0x7f]
 def «end» : Bytes := [0xff]
 
+/-- `encode::ArrayIter`: a definite head iff the iterator's size hint is exact
+    (`Some(low) == up`, and then `low` is the number of items), otherwise indefinite + break.
+    `items` are the encodings of the items the iterator yields. -/
+def arrayIter (exact : Bool) (items : List Bytes) : Bytes :=
+  if exact then array items.length ++ items.flatten
+  else beginArray ++ items.flatten ++ «end»
+
+/-- `encode::MapIter` (entries flattened: k₁, v₁, k₂, v₂, …). -/
+def mapIter (exact : Bool) (kvs : List Bytes) : Bytes :=
+  if exact then map (kvs.length / 2) ++ kvs.flatten
+  else beginMap ++ kvs.flatten ++ «end»
+
 end Enc
 end Minicbor
